@@ -1129,9 +1129,33 @@ def required_probes(tier, cfg):
 
 
 # --------------------------------------------------------------------------- process sweep
+def spelling_variants():
+    """Every known function called with a legal arity in canonical, upper-case,
+    capitalised and swapped-case spelling, plus the keyword operators in other cases: the
+    inputs on which anything derived from set/dict iteration order (hash seed) or from a
+    table that an optional sub-package extends (import order) has to show."""
+    out = []
+    for name in corpus.FUNC_NAMES:
+        n = corpus.FUNCS[name][0]
+        args = ", ".join(["name", "'x'", "1"][:n])
+        for sp in (name, name.upper(), name.title(), name.swapcase(), name.capitalize()):
+            out.append("%s(%s) eq 1" % (sp, args))
+        out.append("%s(%s) eq 1" % (name, ", ".join(["name", "'x'", "1", "2"][:n + 1])))
+        if n:
+            out.append("%s(%s) eq 1" % (name, ", ".join(["name", "'x'", "1"][:n - 1])))
+    for extra in ("ltrim", "rtrim", "lower", "upper", "substr", "strpos", "ceil", "len",
+                  "char_length", "cast", "isof", "geo.area", "st_distance", "abs", "sqrt"):
+        for n in (0, 1, 2):
+            out.append("%s(%s) eq 1" % (extra, ", ".join(["name", "1"][:n])))
+    for kw in ("AND", "Or", "NOT ", "Eq", "IN", "Add", "ANY", "All", "NULL", "True"):
+        out.append("a %s b" % kw.strip() if kw.strip() not in ("NOT", "ANY", "All", "NULL", "True")
+                   else "%s a" % kw.strip())
+    return out
+
+
 def sweep_texts(seed):
     pool = text_pool(seed, n=160)
-    texts = sorted(set(pool["valid"]) | set(pool["bad"]))
+    texts = sorted(set(pool["valid"]) | set(pool["bad"]) | set(spelling_variants()))
     rng = random.Random(seed + 99)
     aliases = [gen_aliases(rng) for _ in range(12)]
     rew = [(tuple(tuple(a) for a in al), gen_probe_for_aliases(rng, al)) for al in aliases]
